@@ -26,7 +26,11 @@ LEVEL_TEXT = ("every population of the stated catalogue and every point of the s
               "the real run() body of each of the six classes and every cell of every result table is judged; real-data "
               "records are a finite payload alphabet, the criteria lattice around them is complete; the form in which the "
               "criteria values are written (bool / numpy.bool_ / int flag; float / numpy.float64 / int / numpy.int64 limits) "
-              "rotates over the case index: every criteria point is executed in each of the 12 form combinations, on different tables")
+              "rotates over the case index: every criteria point is executed in each of the 12 form combinations, on different tables; "
+              "the run parameter ordmin (which by the statement has no say in the hard criteria: they hold 'at every model order') "
+              "rotates over the same case index through {0, 1, middle order, ordmax}, every criteria point meeting every value and "
+              "every (form, ordmin) combination in driver A; on a fixed share of the cases with ordmin > 0 the tables are also "
+              "compared with those of a fresh run with ordmin = 0")
 RULE = ("one case = (class variant, pole table, criteria point) executed through run(); non-trivial = the unfiltered table "
         "contains at least one pole that violates exactly one enabled criterion and meets all the others (so that the "
         "effect of a single mask is isolated); distinct by (variant, table index, criteria index) resp. (variant, record, "
@@ -37,6 +41,8 @@ ASSUMPTIONS = [
     "values within relative 1e-9 of a threshold (absolute 1e-9 for the threshold 0) are not judged",
     "designed populations are returned by a stand-in for SSI_poles/pLSCF_poles; everything downstream of that call in run() is the real code; covariance tables of designed populations are injected without calc_unc (the run() body only tests 'Fn_cov is not None')",
     "a cell of the unfiltered solution is a pole iff its frequency is finite",
+    "run parameter ordmin (an axis of the space, rotated over the case index, not multiplied into it): values 0 (default), 1, ordmax // 2 and ordmax of the run, on every class variant of both drivers; the oracle does not know ordmin - every pole of every order (table column), below ordmin or not, is judged against the criteria alone; in driver A the designed poles sit in the two highest orders, so that the SSI tables have poles below ordmin for ordmin = ordmax and the pLSCF tables for ordmin = 1 and 2; in driver B (real records) every order carries poles",
+    "reference run for ordmin: on the cases with ordmin > 0 whose criteria point has selector 1 (mod 3) (driver A: on every third table) a fresh algorithm object with the same criteria and ordmin = 0 is run on the same setup and all pole tables (not the labels, which ordmin is meant to change) must be identical, NaN pattern included",
     "form of the criteria values (an axis of the space, rotated over the case index so that every criteria point meets every form, not multiplied into it): the conj flag is given as Python bool / numpy.bool_ / Python int, the limits as Python float / numpy.float64 / Python int / numpy.int64 (the integer forms for the integral values 0, 1, 10^6); the oracle is evaluated on the plain values, which are equal to the formed ones",
 ]
 
@@ -283,14 +289,15 @@ class _HC(dict):
     __format__ = lambda self, spec: str(self)      # noqa: E731
 
 
-def judge(t, vname, unf, poles, res, hc, case, nt_id, forms=None):
+def judge(t, vname, unf, poles, res, hc, case, nt_id, forms=None, ordmin=0):
     """Compare one result with the oracle (hc = the plain criteria values; forms = the type names in which they were given,
-    used only for the monitors and the messages). Returns number of poles judged."""
+    ordmin = the run parameter of the judged run: both used only for the monitors and the messages - the oracle depends on the
+    plain criteria values alone). Returns number of poles judged."""
     forms = forms or {}
-    if forms:
+    if forms or ordmin:
         plain = hc
         hc = _HC(plain)
-        hc.form = ", ".join(f"{k}: {forms[k]}" for k in plain if k in forms)
+        hc.form = ", ".join(f"{k}: {forms[k]}" for k in plain if k in forms) + (f"; run parameter ordmin={ordmin}" if ordmin else "")
     use_cov = unf["Fn_cov"] is not None
     Fn_r = getattr(res, "Fn_poles", None)
     if Fn_r is None or np.shape(Fn_r) != unf["Fn"].shape:
@@ -343,6 +350,9 @@ def judge(t, vname, unf, poles, res, hc, case, nt_id, forms=None):
                     if failed[0] in FORM_KEY and FORM_KEY[failed[0]] in forms and not vname.startswith("B/"):
                         # the single effective criterion was written in this form
                         t.outcomes[f"only:{failed[0]}:{vname}/{forms[FORM_KEY[failed[0]]]}"] += 1
+                    if p["o"] < ordmin:
+                        # the single effective criterion has to act in a table column (order) below the run's ordmin
+                        t.outcomes[f"only:{failed[0]}:{vname}/below-ordmin"] += 1
             if is_kept:
                 why = "+".join(failed)
                 t.violation(f"unsound:{why}:{vname}",
@@ -355,6 +365,8 @@ def judge(t, vname, unf, poles, res, hc, case, nt_id, forms=None):
             judged += 1
             if is_kept:
                 t.outcomes["kept-as-required"] += 1
+                if p["o"] < ordmin:
+                    t.outcomes[f"kept-as-required:{'B' if vname.startswith('B/') else 'A'}/below-ordmin"] += 1
                 if not hc["conj"] and p["weak"] is False and "conj" in forms and not vname.startswith("B/"):
                     # criterion switched off (in this form): a pole without conjugate that meets all the others has to stay
                     t.outcomes[f"kept-unpaired:conj-off:{vname}/{forms['conj']}"] += 1
@@ -516,47 +528,98 @@ def type_name(x):
     return type(x).__name__
 
 
-def make_alg(variant, hc, which, form=0):
+# Run parameter `ordmin` ("minimum model order for the analysis"): it selects the orders that get a stability label and the lower
+# end of the charts. The statement quantifies the hard criteria over EVERY model order, so the filtered tables may not depend on it.
+ORDMIN_LABELS = ("0", "1", "mid", "ordmax")
+
+
+def run_ordmax(variant, which):
+    if variant[3] == "ssi":
+        return ORDMAX_A if which == "A" else B_ORDMAX_SSI
+    return ORDMAX_PL if which == "A" else B_ORDMAX_PL
+
+
+def ordmin_values(ordmax):
+    """the four values of the axis for a run with this ordmax (labels ORDMIN_LABELS)"""
+    return (0, 1, max(1, ordmax // 2), ordmax)
+
+
+def ordmin_index(vi, ti, g):
+    """Position on the ordmin axis for a case. The form index is (vi + ti + g) mod N_FORMS; this one advances once per N_FORMS
+    tables / criteria points, so that the two rotations are independent: in driver A every criteria point g meets all
+    N_FORMS x 4 (form, ordmin) combinations over the tables; in driver B (few records) over the records and class variants."""
+    return (int(ti) // N_FORMS + int(g) + int(vi)) % len(ORDMIN_LABELS)
+
+
+def ordmin_index_B(vi, rec, g):
+    return (int(g) // N_FORMS + int(rec) + int(vi)) % len(ORDMIN_LABELS)
+
+
+def ordmin_label(variant, which, ordmin):
+    vals = ordmin_values(run_ordmax(variant, which))
+    return "/".join(l for l, v in zip(ORDMIN_LABELS, vals) if v == ordmin) or "other"
+
+
+def make_alg(variant, hc, which, form=0, ordmin=0, name="a"):
     import pyoma2.algorithms as algs
 
     vname, cname, kind, family, with_cov = variant
     cls = getattr(algs, cname)
     hc = _formed(_rotated(hc), form)
+    # ordmin = 0 is the default: it is then left out, as in every call made before this axis existed
+    okw = {} if ordmin == 0 else {"ordmin": int(ordmin)}
     if family == "ssi":
         if which == "A":
-            return cls(name="a", br=2, ordmax=ORDMAX_A, hc=dict(hc))
+            return cls(name=name, br=2, ordmax=ORDMAX_A, hc=dict(hc), **okw)
         kw = dict(calc_unc=True, nb=B_NB) if with_cov else {}
-        return cls(name="a", br=B_BR, ordmax=B_ORDMAX_SSI, hc=dict(hc), **kw)
+        return cls(name=name, br=B_BR, ordmax=B_ORDMAX_SSI, hc=dict(hc), **kw, **okw)
     hcp = {k: hc[k] for k in ("conj", "xi_max", "mpc_lim", "mpd_lim")}
     if which == "A":
-        return cls(name="a", ordmax=ORDMAX_PL, nxseg=8, hc=hcp)
-    return cls(name="a", ordmax=B_ORDMAX_PL, nxseg=B_NXSEG, method_SD=B_PL_METHOD, hc=hcp)
+        return cls(name=name, ordmax=ORDMAX_PL, nxseg=8, hc=hcp, **okw)
+    return cls(name=name, ordmax=B_ORDMAX_PL, nxseg=B_NXSEG, method_SD=B_PL_METHOD, hc=hcp, **okw)
 
 
 _TABLES = ("Fn_poles", "Xi_poles", "Phi_poles", "Lambds", "Fn_poles_cov", "Xi_poles_cov", "Phi_poles_cov", "Lab")
 
 
-def run_one(variant, hc, seed, which, rec=None, form=0):
+def _tables_differ(first, second, keys):
+    diff = []
+    for k in keys:
+        a, b = getattr(first, k, None), getattr(second, k, None)
+        if (a is None) != (b is None) or (a is not None and not (np.shape(a) == np.shape(b) and np.array_equal(np.asarray(a), np.asarray(b), equal_nan=True))):
+            diff.append(k)
+    return diff
+
+
+def run_one(variant, hc, seed, which, rec=None, form=0, ordmin=0, ref_ok=True):
     """Run the algorithm through its setup - twice on the same object: the second run must give the very same tables (the
-    criteria given by the user are still in force, nothing is consumed by a run). _CUR['rerun'] reports the comparison."""
+    criteria given by the user are still in force, nothing is consumed by a run). _CUR['rerun'] reports the comparison.
+    With ordmin > 0, on the criteria points with selector 1 (and ref_ok), a fresh object with ordmin = 0 is run on the same
+    setup as a reference: _CUR['ordmin_ref'] lists the pole tables that differ (None = no reference run made)."""
     setup = get_setup(variant[2], seed, which, rec)
-    alg = make_alg(variant, hc, which, form)
+    alg = make_alg(variant, hc, which, form, ordmin)
     # the forms as they are held by the run parameters (what run() will read), for the vacuity monitors
     _CUR["forms"] = {k: type_name(v) for k, v in alg.run_params.hc.items()}
+    _CUR["ordmin"] = alg.run_params.ordmin
     setup.add_algorithms(alg)
     setup.run_by_name("a")
     first = alg.result
     _CUR["rerun"] = None
-    if (int(bool(hc.get("conj"))) + int(round(10 * hc.get("xi_max", 0))) + int(round(100 * hc.get("mpc_lim", 0))) + int(round(100 * hc.get("mpd_lim", 0)))) % 3:
+    _CUR["ordmin_ref"] = None
+    sel = (int(bool(hc.get("conj"))) + int(round(10 * hc.get("xi_max", 0))) + int(round(100 * hc.get("mpc_lim", 0))) + int(round(100 * hc.get("mpd_lim", 0)))) % 3
+    if sel == 1 and ordmin != 0 and ref_ok:
+        keep = _CUR.get("rec")            # driver B: the recorded unfiltered tables of the judged run stay the judged ones
+        ref = make_alg(variant, hc, which, form, 0, name="r")
+        setup.add_algorithms(ref)
+        setup.run_by_name("r")
+        if keep is not None:
+            _CUR["rec"] = keep
+        _CUR["ordmin_ref"] = _tables_differ(ref.result, first, _TABLES[:-1])      # everything but the labels
+    if sel:
         return first                      # the second run is made on every third point of the criteria lattice
     setup.run_by_name("a")
     second = alg.result
-    diff = []
-    for k in _TABLES:
-        a, b = getattr(first, k, None), getattr(second, k, None)
-        if (a is None) != (b is None) or (a is not None and not (np.shape(a) == np.shape(b) and np.array_equal(np.asarray(a), np.asarray(b), equal_nan=True))):
-            diff.append(k)
-    _CUR["rerun"] = diff
+    _CUR["rerun"] = _tables_differ(first, second, _TABLES)
     return first
 
 
@@ -569,7 +632,22 @@ def form_index(*idx):
     return sum(int(i) for i in idx) % N_FORMS
 
 
-def case_A(t, variant, vi, names, ti, hcs, seed, cat, only_g=None, form=None):
+def _ordmin_outcomes(t, drv, vname, variant, which, om, hc, case):
+    """monitors of the ordmin axis + the comparison with the reference run (ordmin = 0), if one was made"""
+    t.outcomes[f"{drv}:ordmin={ordmin_label(variant, which, om)}"] += 1
+    ref = _CUR.get("ordmin_ref")
+    if ref is None:
+        return
+    if ref:
+        for k in ref:
+            t.violation(f"ordmin-dependent:{k}:{vname}",
+                        f"{vname}: {k} after a run with the run parameter ordmin={om} differs from {k} of a fresh run with the same hard "
+                        f"criteria and ordmin=0 (the hard criteria hold at every model order; ordmin has no say in them); hc={hc}", case)
+    else:
+        t.outcomes[f"{drv}:ordmin-reference-identical"] += 1
+
+
+def case_A(t, variant, vi, names, ti, hcs, seed, cat, only_g=None, form=None, ordmin=None):
     vname, cname, kind, family, with_cov = variant
     unf = designed(cat, family, with_cov, names)
     poles = analyse(unf)
@@ -579,15 +657,18 @@ def case_A(t, variant, vi, names, ti, hcs, seed, cat, only_g=None, form=None):
         if only_g is not None and g != only_g:
             continue
         fm = form_index(vi, ti, g) if form is None else form
-        case = {"driver": "A", "variant": vname, "items": list(names), "hc": hc, "form": fm, "form_text": form_text(fm), "seed": seed}
+        om = ordmin_values(run_ordmax(variant, "A"))[ordmin_index(vi, ti, g)] if ordmin is None else int(ordmin)
+        case = {"driver": "A", "variant": vname, "items": list(names), "hc": hc, "form": fm, "form_text": form_text(fm), "ordmin": om, "seed": seed}
         t.states += 1
         t.evaluations += 1
         try:
-            res = run_one(variant, hc, seed, "A", form=fm)
+            # reference run with ordmin = 0 (where ordmin > 0 and the criteria point has selector 1): on every third table; always in a replay
+            res = run_one(variant, hc, seed, "A", form=fm, ordmin=om, ref_ok=(ti % 3 == 0 or ordmin is not None))
         except Exception as e:
-            t.violation(f"raises:{type(e).__name__}:{vname}.run", f"{vname}.run raised {type(e).__name__}: {e} on a designed population {names}; hc={hc} given as [{form_text(fm)}]", case)
+            t.violation(f"raises:{type(e).__name__}:{vname}.run", f"{vname}.run raised {type(e).__name__}: {e} on a designed population {names}; hc={hc} given as [{form_text(fm)}], ordmin={om}", case)
             continue
         forms = dict(_CUR.get("forms") or {})
+        _ordmin_outcomes(t, "A", vname, variant, "A", om, hc, case)
         t.outcomes[f"A:form:conj={forms.get('conj')}"] += 1
         t.outcomes[f"A:form:limits={LIMIT_FORMS[(fm // len(FLAG_FORMS)) % len(LIMIT_FORMS)]}"] += 1
         if _CUR.get("rerun") is None:
@@ -599,10 +680,10 @@ def case_A(t, variant, vi, names, ti, hcs, seed, cat, only_g=None, form=None):
             t.outcomes["rerun-identical"] += 1
         t.transitions += 1
         t.validated += 1
-        n = judge(t, vname, unf, poles, res, hc, case, (vi * 10000 + ti) * 1000 + g, forms)
+        n = judge(t, vname, unf, poles, res, hc, case, (vi * 10000 + ti) * 1000 + g, forms, ordmin=om)
         t.extra["poles_judged"] = t.extra.get("poles_judged", 0) + n
         if ti % 97 == 0 and g == 7 and vi < 6:
-            t.sample({"driver": "A", "variant": vname, "table": list(names), "hc": hc, "given_as": forms,
+            t.sample({"driver": "A", "variant": vname, "table": list(names), "hc": hc, "given_as": forms, "ordmin": om,
                       "poles": [{"cell": [p["i"], p["o"]], "xi": round(p["xi"], 5), "MPC": round(p["mpc"], 4), "MPD": round(p["mpd"], 4),
                                  "retained": bool(not np.isnan(res.Fn_poles[p["i"], p["o"]]))} for p in poles]})
 
@@ -684,18 +765,19 @@ def lattice_B(tier, variant, seed, rec):
     return [dict(h, cov_max=c) for h in hcs for c in (mid, 1e6)]
 
 
-def case_B(t, variant, vi, rec, g, hc, seed, form=None):
+def case_B(t, variant, vi, rec, g, hc, seed, form=None, ordmin=None):
     vname = variant[0]
     fm = form_index(vi, rec, g) if form is None else form
-    case = {"driver": "B", "variant": vname, "record": rec, "hc": hc, "form": fm, "form_text": form_text(fm), "seed": seed}
+    om = ordmin_values(run_ordmax(variant, "B"))[ordmin_index_B(vi, rec, g)] if ordmin is None else int(ordmin)
+    case = {"driver": "B", "variant": vname, "record": rec, "hc": hc, "form": fm, "form_text": form_text(fm), "ordmin": om, "seed": seed}
     t.states += 1
     t.evaluations += 1
     with Patched("record"):
         _CUR.pop("rec", None)
         try:
-            res = run_one(variant, hc, seed, "B", rec, form=fm)
+            res = run_one(variant, hc, seed, "B", rec, form=fm, ordmin=om)
         except Exception as e:
-            t.violation(f"raises:{type(e).__name__}:{vname}.run", f"{vname}.run raised {type(e).__name__}: {e} on record {rec}; hc={hc} given as [{form_text(fm)}]", case)
+            t.violation(f"raises:{type(e).__name__}:{vname}.run", f"{vname}.run raised {type(e).__name__}: {e} on record {rec}; hc={hc} given as [{form_text(fm)}], ordmin={om}", case)
             return
         forms = dict(_CUR.get("forms") or {})
         unf = _CUR.get("rec")
@@ -715,11 +797,12 @@ def case_B(t, variant, vi, rec, g, hc, seed, form=None):
     t.outcomes[f"B:poles-in-unfiltered:{'some' if poles else 'none'}"] += 1
     t.outcomes[f"B:form:conj={forms.get('conj')}"] += 1
     t.outcomes[f"B:form:limits={LIMIT_FORMS[(fm // len(FLAG_FORMS)) % len(LIMIT_FORMS)]}"] += 1
-    n = judge(t, "B/" + vname, unf, poles, res, hc, case, ("B", vi, rec, g), forms)
+    _ordmin_outcomes(t, "B", "B/" + vname, variant, "B", om, hc, case)
+    n = judge(t, "B/" + vname, unf, poles, res, hc, case, ("B", vi, rec, g), forms, ordmin=om)
     t.extra["poles_judged"] = t.extra.get("poles_judged", 0) + n
     if g == 5 and rec == 0 and vname in ("SSIcov+cov", "pLSCF"):
         keptn = int(np.sum(~np.isnan(res.Fn_poles)))
-        t.sample({"driver": "B", "variant": vname, "record": rec, "hc": hc, "given_as": forms, "poles_unfiltered": len(poles), "poles_retained": keptn,
+        t.sample({"driver": "B", "variant": vname, "record": rec, "hc": hc, "given_as": forms, "ordmin": om, "poles_unfiltered": len(poles), "poles_retained": keptn,
                   "table_shape": list(unf["Fn"].shape)})
 
 
@@ -758,12 +841,19 @@ def explore(ctx):
             "criteria_value_forms": {"conj": list(FLAG_FORMS), "limits": list(LIMIT_FORMS),
                                      "rotation": f"form = (variant index + table index + criteria index) mod {N_FORMS}: every criteria point in every form "
                                                  "combination (on different tables), every table in every form combination (at different criteria points)"},
+            "run_parameter_ordmin": {"values": dict(zip(ORDMIN_LABELS, ordmin_values(ORDMAX_A))), "values_pLSCF": dict(zip(ORDMIN_LABELS, ordmin_values(ORDMAX_PL))),
+                                     "rotation": f"position = (table index // {N_FORMS} + criteria index + variant index) mod 4: independent of the form rotation, "
+                                                 f"every criteria point in all {N_FORMS} x 4 (form, ordmin) combinations over the tables",
+                                     "reference_run_ordmin_0": "cases with ordmin > 0, criteria selector 1 (mod 3), table index divisible by 3: all pole tables identical"},
         },
         "driver_B": {"records": nrec, "samples": B_N, "fs": FS_B, "ssi": {"br": B_BR, "ordmax": B_ORDMAX_SSI, "nb": B_NB},
                      "plscf": {"ordmax": B_ORDMAX_PL, "nxseg": B_NXSEG, "method_SD": B_PL_METHOD},
                      "class_variants": [v[0] for v in VARIANTS_B],
                      "criteria_lattice": "same as driver A; cov_max in {geometric middle of the recorded covariances, 1e6}",
-                     "criteria_value_forms": f"as driver A, form = (variant index + record index + criteria index) mod {N_FORMS}"},
+                     "criteria_value_forms": f"as driver A, form = (variant index + record index + criteria index) mod {N_FORMS}",
+                     "run_parameter_ordmin": {"values_ssi": dict(zip(ORDMIN_LABELS, ordmin_values(B_ORDMAX_SSI))), "values_pLSCF": dict(zip(ORDMIN_LABELS, ordmin_values(B_ORDMAX_PL))),
+                                              "rotation": f"position = (criteria index // {N_FORMS} + record index + variant index) mod 4",
+                                              "reference_run_ordmin_0": "cases with ordmin > 0 and criteria selector 1 (mod 3): all pole tables identical"}},
     }
     # driver B first (long items), then A
     items_B = [(vi, r) for r in range(nrec) for vi in range(len(VARIANTS_B))]
@@ -792,6 +882,13 @@ def explore(ctx):
         req += [f"kept-unpaired:conj-off:{v[0]}/{f}" for f in FLAG_FORMS]
     for drv in "AB":
         req += [f"{drv}:form:conj={f}" for f in FLAG_FORMS] + [f"{drv}:form:limits={f}" for f in LIMIT_FORMS]
+    # the ordmin axis: every value was run in both drivers (for the designed pLSCF tables 1 and the middle order coincide), the
+    # reference comparison was made, and - the corner the axis is there for - in every class variant of both drivers a pole in a
+    # column below ordmin was rejected by the MPC criterion alone and one by the MPD criterion alone (and poles were kept there)
+    req += [f"{drv}:ordmin={l}" for drv in "AB" for l in ORDMIN_LABELS]
+    req += ["A:ordmin=1/mid", "A:ordmin-reference-identical", "B:ordmin-reference-identical", "kept-as-required:A/below-ordmin", "kept-as-required:B/below-ordmin"]
+    for c in ("mpc", "mpd"):
+        req += [f"only:{c}:{v[0]}/below-ordmin" for v in variants] + [f"only:{c}:B/{v[0]}/below-ordmin" for v in VARIANTS_B]
     ctx.require("rerun-identical", "kept-as-required", "rejected-as-required", "B:poles-in-unfiltered:some", *req)
 
 
@@ -804,7 +901,7 @@ def replay(case):
     vi = [v[0] for v in VARIANTS_T].index(vname)
     if case["driver"] == "A":
         with Patched("replace"):
-            case_A(t, variant, vi, tuple(case["items"]), 0, [hc], seed, catalogue(seed), form=int(case.get("form", 0)))
+            case_A(t, variant, vi, tuple(case["items"]), 0, [hc], seed, catalogue(seed), form=int(case.get("form", 0)), ordmin=int(case.get("ordmin", 0)))
     else:
-        case_B(t, variant, vi, case["record"], 0, hc, seed, form=int(case.get("form", 0)))
+        case_B(t, variant, vi, case["record"], 0, hc, seed, form=int(case.get("form", 0)), ordmin=int(case.get("ordmin", 0)))
     return t
